@@ -49,8 +49,14 @@ S2D2(p, i, j)    == LoD2(p.H, p.ppp, p.pos, i, j)
 S2Contrib(p, i)  == SelectSeq(LoOthers(S2N(p), i), LAMBDA j : S2InRange(p, S2D2(p, i, j)))
 \* a decision the floating-point code cannot be held to: distance exactly r_max, or a
 \* half-cell tie of the minimum image in a non-orthogonal cell (changes the distance)
-S2Tie(p, i) == \/ \E j \in 1..S2N(p) : j # i /\ S2OnEdge(p, S2D2(p, i, j))
+\* Dyadic inputs on which the code's floating-point comparison is exact, so that the strict
+\* "<" can be asserted on the edge: scale and bin denominator powers of two, orthogonal cell,
+\* squared distance a perfect square (the norm is then computed exactly).
+IsPow2(n) == n \in {1, 2, 4, 8, 16, 32, 64}
+S2Sharp(p, d2) == IsPow2(p.S) /\ IsPow2(p.rd) /\ IsDiagonal(p.H) /\ IsSquare(d2)
+S2Tie(p, i) == \/ \E j \in 1..S2N(p) : j # i /\ S2OnEdge(p, S2D2(p, i, j)) /\ ~S2Sharp(p, S2D2(p, i, j))
                \/ (~IsDiagonal(p.H) /\ LoPairTie(p.H, p.ppp, p.pos, i))
+S2HasSharpEdge(p, i) == \E j \in 1..S2N(p) : j # i /\ S2OnEdge(p, S2D2(p, i, j)) /\ S2Sharp(p, S2D2(p, i, j))
 S2Sigma(p, i, j) == p.sig[p.types[i]][p.types[j]]
 
 \* --- terms
@@ -247,4 +253,11 @@ GyRotatedEigen(x, Rn, rden) ==
     \A a \in 1..Len(Rn) :
        LET col == [m \in 1..Len(Rn) |-> Rn[m][a]] IN
        [m \in 1..Len(Rn) |-> Dot(My[m], col)] = VScale(rden * rden * Mx[a][a], col)
+\* the same observables as terms with the large products left unevaluated (inputs whose
+\* exact second moments exceed TLC's 32-bit integers: direction B)
+GyAcyl2TBig(x, S) == LET M == GyNum(x) IN
+  Div(Sqrt(Add2(PowI(I(M[1][1] - M[2][2]), 2), Mul2(I(4), PowI(I(M[1][2]), 2)))), I(GyDen(x, S)))
+GyKappa2T(x) == LET M == GyNum(x)  d == Len(M) IN
+  Sub(Div(Mul2(I(3), Add([e \in 1..(d * d) |-> PowI(I(M[1 + ((e - 1) \div d)][1 + ((e - 1) % d)]), 2)])),
+          Mul2(I(2), PowI(I(GyTr(M)), 2))), Q(1, 2))
 =============================================================================
